@@ -1667,7 +1667,7 @@ class LoopExpression(Expression):
         if limit is not None:
             limit = max(limit, 0)
         if isinstance(offset, int):
-            offset = min(max(offset, 0), length)
+            offset = max(offset, 0)
 
         if limit is None and offset is None:
             context.stopindex(key=offset_key, index=length)
@@ -1687,7 +1687,11 @@ class LoopExpression(Expression):
 
         stop = offset + length if offset else length
         context.stopindex(key=offset_key, index=stop)
-        it = islice(it, offset, stop)
+        it = islice(
+            it,
+            offset if offset is None else min(offset, sys.maxsize),
+            min(stop, sys.maxsize),
+        )
 
         if self.reversed:
             return reversed(list(it)), length
